@@ -1,7 +1,9 @@
 // C35: no unauthenticated network input crashes the server.
 //
 // Engine B, deviation-bounded: a WORKER process runs a real core.Core with every listener enabled on a private
-// loopback port block and an authentication configuration under which the driver is never authorized; the DRIVER
+// loopback port block and an authentication configuration under which the driver is never authorized ("closed"
+// world) or under which anonymous clients may read one path that has a live stream and publish below one prefix
+// ("open" world: unauthenticated is not unauthorized; the default configuration lets anyone read); the DRIVER
 // sends, for every listener, every single-deviation mutant of a set of valid unauthenticated seed exchanges and checks
 // that the worker process is still alive (and answers a probe). A death is bisected to one exchange (the replay).
 package main
@@ -17,17 +19,27 @@ var (
 	flagMoQ    = flag.Bool("moq", true, "worker: enable MoQ")
 	flagTLS    = flag.Bool("tls", true, "worker: enable the TLS listeners (RTSPS, RTMPS, MoQ); each costs inotify instances")
 	flagMem    = flag.Int("mem", 0, "worker: RLIMIT_AS in MB (0 = none)")
+	flagWorld  = flag.String("world", "closed", "worker: closed = nobody but the configured user is authorized; open = anonymous clients may read the path 'live' (live stream published from inside the worker) and publish below 'pub/'")
+	flagRTSPS  = flag.Bool("rtsps", false, "worker: with -tls=false, enable the RTSPS listener only")
 
 	flagLanes  = flag.Int("lanes", 0, "driver: number of worker processes (0 = 2 x GOMAXPROCS, max 32)")
 	flagChunk  = flag.Int("chunk", 384, "driver: exchanges per chunk")
 	flagBudget = flag.Int("budget", 0, "driver: internal deadline in seconds (0 = tier default)")
 	flagOnly   = flag.String("only", "", "driver: only seeds whose listener/name contains this string")
+	flagShow   = flag.Bool("show", false, "driver: print the answer classes of the unmutated seeds and the class counts per seed and mutation kind")
 )
 
 func main() {
 	flag.Parse()
 	if *flagWorker {
-		workerMain(*flagBase, *flagDir, *flagMoQ, *flagTLS, *flagMem)
+		kind := workerKind{Open: *flagWorld == "open"}
+		switch {
+		case *flagTLS:
+			kind.TLS = 2
+		case *flagRTSPS:
+			kind.TLS = 1
+		}
+		workerMain(*flagBase, *flagDir, *flagMoQ, kind, *flagMem)
 		return
 	}
 	if *flagReplay != "" {
